@@ -114,8 +114,9 @@ def run(F, R, tier):
         ok = False
         if st:
             d = dict(st[0][2])
-            ok = show(d.get("mm")) == "get_MFe(model, 1)" and show(d.get("ml")) == "get_MFe(model)" and \
-                show(d.get("mhSM")) == "get_mh(get_sm(model))" and show(d.get("mh")) == "get_Mhh(model)"
+            pm = f["params"][0]["name"] or "model"
+            ok = show(d.get("mm")) == "get_MFe(%s, 1)" % pm and show(d.get("ml")) == "get_MFe(%s)" % pm and \
+                show(d.get("mhSM")) == "get_mh(get_sm(%s))" % pm and show(d.get("mh")) == "get_Mhh(%s)" % pm
         R.check("R0", ok, "%s: mm = MFe(1), ml = MFe, mhSM = sm.mh, mh = Mhh" % nm.split("::")[-1], F.loc(f),
                 "parameter struct is filled differently", key="R0|" + nm)
 
